@@ -118,7 +118,7 @@ func (ld *Loaded) verifyFunc(fn *ssa.Function) (res *FuncResult) {
 
 	final, results := ex.execFunc(fr, st)
 	if !final.infeasible() {
-		env := &Env{ex: ex, fr: fr, st: final, old: ex.entry, vars: map[string]Val{}, results: results, resultNames: resultNames(fn), pkg: pkgOf(fn)}
+		env := &Env{ex: ex, fr: fr, st: final, old: ex.entry, vars: map[string]Val{}, results: results, resultNames: resultNames(fn), pkg: pkgOf(fn), paramsEntry: true}
 		ex.applyGhost(env, fc, final)
 		for _, e := range fc.Ensures {
 			g := ex.evalBool(env, e.E)
